@@ -101,7 +101,7 @@ fn offsets() -> impl Strategy<Value = i64> {
         1 => prop::sample::select(vec![i64::MIN, i64::MAX, i32::MIN as i64, i32::MAX as i64, -1, 0, -200, -50]),
     ]
 }
-fn strategy() -> impl Strategy<Value = Case> {
+pub fn strategy() -> impl Strategy<Value = Case> {
     let fx_kind = prop::sample::select(vec![RKind::SintFx(32), RKind::SintFx(64), RKind::UintFx(32), RKind::UintFx(64)]);
     let fixed = (fx_kind, prop_oneof![3 => nice_q(), 2 => g::f32_bits()], offsets(), any::<bool>(), any::<bool>(), any::<u8>()).prop_flat_map(
         |(kind, q, off, matched, some, sel)| {
